@@ -14,6 +14,9 @@
 #include <csignal>
 #include <functional>
 #include <iterator>
+#include <sstream>
+#include <string>
+#include <cstdio>
 #include <sys/mman.h>
 #include <type_traits>
 #include <unistd.h>
@@ -630,15 +633,98 @@ void set_array(A a, const bytes& b)
     }
 }
 
+// the API form through which assign_data gives the value to the <data> member
+// (names are those of ViewEmit.tla DataForms; set by the replay loop)
+inline std::string& data_form()
+{
+    static std::string f = "assign_range";
+    return f;
+}
+
 template<typename D>
 void assign_data(D d, const bytes& b)
 {
-    std::vector<typename D::value_type> v;
+    using T = typename D::value_type;
+    using S = typename D::size_type;
+    std::vector<T> v;
     for(auto x : b)
     {
-        v.push_back(static_cast<typename D::value_type>(x));
+        v.push_back(static_cast<T>(x));
     }
-    d.assign_range(v);
+    const std::string& f = data_form();
+    const S n = static_cast<S>(v.size());
+    if(f == "assign_range")
+        d.assign_range(v);
+    else if(f == "assign_it")
+        d.assign(v.begin(), v.end());
+    else if(f == "assign_input_it")
+    {
+        // a genuine single-pass input iterator
+        std::istringstream is(std::string(b.begin(), b.end()));
+        d.assign(std::istreambuf_iterator<char>(is), std::istreambuf_iterator<char>());
+    }
+    else if(f == "resize_then_set" || f == "resize_v_then_set" || f == "assign_n_then_set")
+    {
+        if(f == "resize_then_set")
+            d.resize(n);
+        else if(f == "resize_v_then_set")
+            d.resize(n, static_cast<T>(0x5a));
+        else
+            d.assign(n, static_cast<T>(0x33));
+        for(S i = 0; i < n; i++)
+            d[i] = v[static_cast<std::size_t>(i)];
+    }
+    else if(f == "clear_push_back")
+    {
+        d.clear();
+        for(auto x : v)
+            d.push_back(x);
+    }
+    else if(f == "clear_insert_end")
+    {
+        d.clear();
+        for(auto x : v)
+            d.insert(d.end(), x);
+    }
+    else if(f == "clear_insert_range")
+    {
+        d.resize(0);
+        d.insert(d.begin(), v.begin(), v.end());
+    }
+    else if(f == "clear")
+        d.clear();
+    else if(f == "resize_0")
+        d.resize(0);
+    else if(f == "resize_0_default_init")
+        d.resize(0, ::sbepp::default_init);
+    else if(f == "assign_empty_ilist")
+        d.assign(std::initializer_list<T>{});
+    else if(f == "assign_ilist")
+    {
+        if(v.size() == 1)
+            d.assign({v[0]});
+        else if(v.size() == 2)
+            d.assign({v[0], v[1]});
+        else
+            d.assign({v[0], v[1], v[2]});
+    }
+    else if(f == "assign_n")
+        d.assign(n, v[0]);
+    else if(f == "assign_string")
+    {
+        std::string s(v.begin(), v.end());
+        d.assign_string(s.c_str());
+    }
+    else if(f == "assign_tail_then_insert_front")
+    {
+        d.assign(v.begin() + 1, v.end());
+        d.insert(d.begin(), v[0]);
+    }
+    else
+    {
+        std::fprintf(stderr, "unknown data form %s\n", f.c_str());
+        std::exit(3);
+    }
 }
 } // namespace vh
 
